@@ -67,6 +67,14 @@ def confirm(v):
         return 'panic' in r, '--bump-core 1=4294967295 on uint(%d) -> %s' % (v['literal'], r.get('panic', r.get('schema', '')[:80]))
     if site == 'git_fault':
         return confirm_git_fault(v)
+    if site == 'run_git_command':
+        desc2 = dict(commits=[(1, []), (0, [1])], head=0, branch='main', side={}, tags={'v1.2.3': (1, False)}, dates={0: 1_600_001_000, 1: 1_600_000_000}, dirty=None)
+        for idx in range(0, 14):
+            rc, out, err = run_zerv_with_fault(desc2, 'semver', idx, answer=(v['stdout'], v['stderr'], 0 if v['success'] else 1))
+            why = clean_process_result(rc, out, err)
+            if why:
+                return True, 'git call #%d answering stdout=%r stderr=%r status %d: %s' % (idx, bytes(v['stdout']), bytes(v['stderr']), 0 if v['success'] else 1, why if why != 'panic' else err.strip()[:200])
+        return False, 'run_git_command panic on stdout=%r does not reproduce with the real binary (%s)' % (bytes(v['stdout']), v['detail'])
     if site == 'stdout_write':
         if 'world' not in v:
             return False, 'a library kernel printed to standard output (%s); no process-level replay for this kernel' % v.get('text')
@@ -86,7 +94,10 @@ GIT_WRAPPER = '''#!/bin/bash
 # git wrapper for fault replay: the call whose index (in issue order) equals .git/verif_fault fails like a dying git
 if [ -f .git/verif_fault ]; then
   n=$(cat .git/verif_count 2>/dev/null || echo 0); echo $((n+1)) > .git/verif_count
-  if [ "$n" = "$(cat .git/verif_fault)" ]; then echo "fatal: injected failure" >&2; exit 128; fi
+  if [ "$n" = "$(cat .git/verif_fault)" ]; then
+    if [ -f .git/verif_out ]; then cat .git/verif_out; cat .git/verif_err >&2; exit $(cat .git/verif_rc); fi
+    echo "fatal: injected failure" >&2; exit 128
+  fi
 fi
 exec %s "$@"
 '''
@@ -116,7 +127,7 @@ def run_with_fault(desc, fmt, idx):
         gitlib.remove(d)
 
 
-def run_zerv_with_fault(desc, fmt, idx, extra=()):
+def run_zerv_with_fault(desc, fmt, idx, extra=(), answer=None):
     """the real zerv binary on a real repository with the git call #idx failing -> (exit status, stdout, stderr)"""
     import gitlib
     import subprocess
@@ -128,6 +139,10 @@ def run_zerv_with_fault(desc, fmt, idx, extra=()):
         if idx is not None:
             with open(os.path.join(d, '.git', 'verif_fault'), 'w') as f:
                 f.write(str(idx))
+            if answer is not None:      # (stdout bytes, stderr bytes, exit status) the chosen git call answers with
+                for nm, data in (('verif_out', bytes(answer[0])), ('verif_err', bytes(answer[1])), ('verif_rc', str(answer[2]).encode())):
+                    with open(os.path.join(d, '.git', nm), 'wb') as f:
+                        f.write(data)
         p = subprocess.run([zb, 'version', '-C', d, '--input-format', fmt] + list(extra), env=dict(gitlib.ENV, PATH=wdir + ':' + os.environ.get('PATH', '')),
                            stdin=subprocess.DEVNULL, capture_output=True, text=True, timeout=60)
         return p.returncode, p.stdout, p.stderr
@@ -204,6 +219,8 @@ def classify(v):
         return 'panic:bump_overflow:' + site[5:]
     if site == 'stdout_write':
         return 'stdout_write:' + str(v.get('stage', 'kernel'))
+    if site == 'run_git_command':
+        return 'panic:run_git_command'
     return 'panic:' + site
 
 
@@ -225,7 +242,7 @@ def main():
     ck.bounds = dict(derive_short_hash='commit hashes of 0..%d chars over ASCII + non-ASCII representatives' % N,
                      template_functions='prefix/hash/hash_int with values of 0..3(4) chars and any length 0..40; sanitize with max_length 0..6; format_timestamp with EVERY format string of 0..3(4) chars (symbolic) and any second 1970-2199',
                      from_semver='%d pre-release identifier lists of length <= %d over {epoch, post, dev, alpha, rc, x, number}' % (len(shapes), 3 if quick else 4),
-                     custom_values='dotted keys of up to 4 (5) chars over {a,b,c,s,n,.,0,1,2,9,x} into a nested JSON object with an array, an object, a string and null', branch_rules='default GitFlow rules and a short rule set on branch names with all-digit segments of 1..20 (21) digits and free names of 0..3 (5) chars', git_fault='get_vcs_data + vcs_data_to_zerv_vars against the C02 git stub (chains of 1..3 commits and a diamond, 3-4 tag menus with every placement symbolic), the git call with a solver-chosen index 0..40 fails', bump_overflow='each by-name bump with any u32 amount on start values up to 2^64-1; index bump of a uint literal up to 2^64-1')
+                     custom_values='dotted keys of up to 4 (5) chars over {a,b,c,s,n,.,0,1,2,9,x} into a nested JSON object with an array, an object, a string and null', run_git_command='exit status symbolic; stdout / stderr bytes from menus of 7 x 6 answers incl. invalid UTF-8, padding, empty', branch_rules='default GitFlow rules and a short rule set on branch names with all-digit segments of 1..20 (21) digits and free names of 0..3 (5) chars', git_fault='get_vcs_data + vcs_data_to_zerv_vars against the C02 git stub (chains of 1..3 commits and a diamond, 3-4 tag menus with every placement symbolic), the git call with a solver-chosen index 0..40 fails', bump_overflow='each by-name bump with any u32 amount on start values up to 2^64-1; index bump of a uint literal up to 2^64-1')
     ck.outside = ['argument-vector parsing (clap), stdout/stderr separation and the exit status of the process', 'more than one failing git sub-command per run, git printing malformed output with a zero status', 'RON/JSON parsing of stdin (library code)',
                   'panic paths inside the other properties\' executions are reported by those checks']
     ck.assumptions = ['chrono strftime item validity mirrors StrftimeItems::parse_next_item of the locked chrono 0.4.43 (read from the registry source)', 'python std models']
@@ -246,6 +263,10 @@ def main():
     bargs = c13.branch_rule_args(ck.tier)
     ex = engine.explore('c13', 'path_branch_rules', bargs, jobs=ck.jobs, deadline=dl(600))
     cands += ck.absorb('branch-rule resolution never panics (digit segments of 1..20 digits, free names)', ex, bounds=dict(configs=len(bargs)), expect_tags=['returned', 'applied'])
+    rg = [(i, j) for i in range(len(c13.GIT_STDOUT)) for j in range(len(c13.GIT_STDERR))]
+    ex = engine.explore('c13', 'path_run_git', rg, jobs=ck.jobs, deadline=dl(300))
+    cands += ck.absorb('GitVcs::run_git_command (the process boundary itself, std::process::Command stubbed): Ok or Err for any exit status and any output bytes of the menu, never a panic', ex,
+                       bounds=dict(configs=len(rg)), expect_tags=['returned_ok', 'returned_err'])
     gcases = c13.git_fault_cases(ck.tier)
     ex = engine.explore('c13', 'path_git_fault', gcases, jobs=ck.jobs, deadline=dl(600 if quick else 3000))
     cands += ck.absorb('any single git sub-command failing: extraction returns Ok or Err, never panics', ex, bounds=dict(configs=len(gcases)),
